@@ -452,8 +452,14 @@ def structural_keys(run):
                 ("{%s => 7, %s => 8}[%s]" % (K, K2, K), 8), ("{[%s] => 7}[[%s]]" % (K, K2), 7), ("dict(%s => 5).get(%s)" % (K, K2), 5),
                 ("%s = %s" % (K, K2), True), ("{%s => 7}.keys().toList()[0] = %s" % (K, K2), True),
                 ("{%s => 1}.containsKey(%s)" % (K, K2), True), ("%s in {%s => 1}.keys()" % (K2, K), True)]
+        # containers that come from the DOCUMENT are the same values as the ones written in the program - the empty ones too
+        doc = {"e": [], "ed": {}, "n": None, "z": 0, "s": "", "l": [[], {}, [[]]], "k": {ks[0]: 1}}
+        rows += [("$.e = []", True), ("$.ed = {}", True), ("{[] => 7, [1] => 8}[$.e]", 7), ("$.e in [[], [1]]", True),
+                 ("[$.e, []].distinct().len()", 1), ("dict($.e => 5).get([])", 5), ("$.l[0] = [] and $.l[2] = [[]]", True),
+                 ("{$.ed => 1}.containsKey({})", True), ("[$.e, $.ed, $.l].len()", 3), ("$.l.indexOf([])", 0),
+                 ("{[$.e] => 1}[[[]]]", 1), ("$.k = {%s => 1}" % ks[0], True)]
         for text, want in rows:
-            got = _outcome(eng, text, None, yaql.create_context())
+            got = _outcome(eng, text, doc if "$." in text else None, yaql.create_context())
             run.case(("structkey", text), nontrivial=True)
             run.count("structural_key_row")
             if got[0] == "err" and got[1] in ("NoMatchingMethodException", "NoMethodRegisteredException"):
